@@ -66,7 +66,13 @@ def run_shard(task, base_seed):
             res["evaluations"] += 1
             for lb in out.labels:
                 res["labels"][lb] += 1
+            kf_sites = set()
+            for f in out.failures:
+                if findings.match(pid, cname, f):
+                    kf_sites.add(f.site)
             for k, v in out.ratios.items():
+                if k in kf_sites:
+                    continue          # margins are reported for the healthy class only
                 if v > res["ratios"].get(k, 0.0):
                     res["ratios"][k] = v
             if out.nontrivial:
@@ -215,10 +221,12 @@ def check(pid, tier, base_seed):
 
     # violations -> replay files
     vio_lines = []
-    os.makedirs(os.path.join(VERIF, "replays"), exist_ok=True)
+    # sensitivity runs on scratch copies (QV_NO_EVIDENCE=1) must not litter /verif/replays
+    rdir = os.environ.get("QV_REPLAY_DIR") or os.path.join(VERIF, "replays")
+    os.makedirs(rdir, exist_ok=True)
     for key, (cname, v) in sorted(buckets.items(), key=lambda kv: str(kv[0])):
         dg = hashlib.sha1(json.dumps([key, v["case"]], sort_keys=True, default=str).encode()).hexdigest()[:10]
-        path = os.path.join(VERIF, "replays", f"{pid}-{cname}-{dg}.json")
+        path = os.path.join(rdir, f"{pid}-{cname}-{dg}.json")
         doc = {"property": pid, "clause": cname, "failure": v["failure"],
                "meta": {"tier": tier, "seed": base_seed}, "case": v["case"]}
         with open(path, "w") as f:
